@@ -178,6 +178,37 @@ func corrC18(outDir string, seed uint64, tier string, replay string) *report {
 			}
 			rep.bump("reverse_order_compared")
 		}
+		// soak: twenty thousand failing calls (bad prefix value, bad field value, malformed string), then a sample of the
+		// history again: state that leaks a little on every failing call has accumulated by now
+		if hI == 0 {
+			type badPfx struct {
+				HashPrefix Picky
+				S          string
+			}
+			for k := 0; k < 20000; k++ {
+				switch k % 3 {
+				case 0:
+					marshalObs(badPfx{"fail", "x"})
+				case 1:
+					marshalObs(ShapeText{HashPrefix: "$x$", P: func() *Picky { p := Picky("fail"); return &p }()})
+				default:
+					var v ShapeText
+					unmarshalObs("$x$zz$"+fmt.Sprint(k), &v)
+				}
+			}
+			for i, op := range ops {
+				if i%4 != 0 {
+					continue
+				}
+				again := runHistOp(op, types)
+				if again.text != warm[i].text {
+					rep.fail(map[string]interface{}{"history": hI, "op": i, "type": types[op.ty].String(), "form": formNames[op.form], "marshal": op.marshal, "hash": op.h},
+						warm[i].text, again.text, "the outcome of a call changes after twenty thousand failing Marshal / Unmarshal calls (state leaks on error paths)")
+					break
+				}
+			}
+			rep.bump("soak_rounds")
+		}
 		// cold oracle: the same call right after a cache reset
 		for i, op := range ops {
 			crypthash.VerifResetTypeCache()
